@@ -127,7 +127,7 @@ PLAN = {
         'note': COMMON_TRUST + 'internal_backspace_step (chars().rev().take(n).fold(closure) + truncate) is proved in the same unit against `drop the last min(n, len) code points` (std contracts for Take::fold with a closure, String::len and String::truncate in UTF-8 byte offsets are T3 axioms; the bounded check backspace_step stays as a cross-check of them); well-formedness used by the placement clause: every hasanta follows a consonant; joiners are not part of a conjunct (literal reading of the statement).',
     },
     'C14': {
-        'bounded': ['fixed_rules'],
+        'bounded': ['fixed_rules', 'fixed_api'],
         'level': 'proof',
         'units': ['fixed_pkv_on', 'fixed_session'],
         'technique': 'Verus: process_key_value with the option on == transition function step_on (pending-sign state machine); termination; session/backspace clauses',
